@@ -222,9 +222,18 @@ def embedded(ctx, strings):
         escaped = ['Text with escapes ' + '\\n' * k + ' end.\n\n    >>> print(%d)\n    %d' % (k, k) for k in (1, 3, 12, 60)] + \
                   ['>>> print("a' + '\\n' * k + 'b")' for k in (2, 30)] + ['Tabs \\t and \\\\ backslashes \\x41 ' + '\\n' * 25]
         picks = [(s, True) for s in picks] + [(s, False) for s in escaped]
+        # line ends written as bare carriage returns inside the broken docstring (text pasted from an old editor): the tokenizer
+        # counts them as line breaks; in the middle of the module and as its last docstring
+        cr_texts = ['>>> print(1)\r    1\r    >>> x = (\r    some text\r' * k for k in (1, 3, 6)] + ['Example:\r        >>> f(\r\r\r\r    Args:\r']
+        picks += [(s, 'cr') for s in cr_texts] + [(s, 'cr-last') for s in cr_texts]
         for n, (s, raw) in enumerate(picks):
             body = '\n'.join('    ' + l for l in s.split('\n'))
             src = MOD_TMPL % body
+            if raw == 'cr-last':
+                # the broken docstring is the last thing in the file
+                head, tail = src.split('def broken():', 1)
+                broken_fn, after_fn = tail.split('def after():', 1)
+                src = head + 'def after():' + after_fn + '\ndef broken():' + broken_fn.rstrip('\n') + '\n'
             if not raw:
                 src = src.replace('def broken():\n    r"""', 'def broken():\n    """', 1)
             try:
@@ -232,7 +241,7 @@ def embedded(ctx, strings):
             except Exception:
                 continue          # not a module any more (the fuzz text closed the string literal): not this property
             path = os.path.join(tmp, 'xdverif_c14_m%d.py' % n)
-            open(path, 'w').write(src)
+            open(path, 'w', newline='').write(src)
             for style in ('auto', 'google', 'freeform'):
                 ctx.evaluations += 1
                 problem = None
